@@ -306,4 +306,274 @@ Proof.
   - scall Hs as w E1 vw EB1 Hw HE1. eapply IH; eauto.
 Qed.
 
+
+(* ------------------------------------------------------------------ the four bodies *)
+
+Lemma sim_env_let s o E EB x v vv : RS s o -> RE s E EB -> Rws s v vv ->
+  sim s o (lift_res (env_let E x v)) (lift_res (env_let EB x vv)) (fun s' r w => RE s' r w).
+Proof. intros. slift rel_env_let. Qed.
+
+Lemma sim_lower_block_body ss s o E EB : RS s o -> RE s E EB ->
+  sim s o (lower_block_body sA ss E) (lower_block_body sB ss EB) Rres.
+Proof.
+  intros HS HE. unfold lower_block_body.
+  eapply sim_bind; [eapply sim_block_stmts; eauto; [constructor|apply rel_env_push; assumption]|].
+  snext as p q HR. destruct p as [w E1], q as [vw EB1]. unfold Rres in HR. cbn [fst snd] in HR. destruct HR as [Hw HE1].
+  sbindn sim_env_pop as E2 EB2 HE2. apply sim_ret; [assumption|]. split; assumption.
+Qed.
+
+Lemma sim_lower_pattern_body p s o mw vmw E EB : RS s o -> Rws s mw vmw -> RE s E EB ->
+  sim s o (lower_pattern_body bops P pA p mw E) (lower_pattern_body tops P pB p vmw EB) RresP.
+Proof.
+  intros HS Hmw HE. destruct p as [pi pm t]. cbn [lower_pattern_body].
+  assert (Hrange : forall lo vlo hi vhi, Rws s lo vlo -> Rws s hi vhi ->
+    sim s o
+      (mbind (o_comparator bops (szn P t) mw (is_signed t) lo (is_signed t)) (fun '(lt_min, _) =>
+       mbind (o_comparator bops (szn P t) mw (is_signed t) hi (is_signed t)) (fun '(_, gt_max) =>
+       mbind (m_not bops lt_min) (fun a => mbind (m_not bops gt_max) (fun c =>
+       mbind (m_and bops a c) (fun r => ret (r, E)))))))
+      (mbind (o_comparator tops (szn P t) vmw (is_signed t) vlo (is_signed t)) (fun '(lt_min, _) =>
+       mbind (o_comparator tops (szn P t) vmw (is_signed t) vhi (is_signed t)) (fun '(_, gt_max) =>
+       mbind (m_not tops lt_min) (fun a => mbind (m_not tops gt_max) (fun c =>
+       mbind (m_and tops a c) (fun r => ret (r, EB))))))) RresP).
+  { intros lo vlo hi vhi Hlo Hhi.
+    sbind2 sim_comparator as lt1 gt1 vlt1 vgt1 Hlt1 Hgt1. sbind2 sim_comparator as lt2 gt2 vlt2 vgt2 Hlt2 Hgt2.
+    unf. sbindn sim_not as a va Ha. sbindn sim_not as c vc Hc. sbindn sim_and as r vr Hr.
+    apply sim_ret; [assumption|]. split; assumption. }
+  assert (Heq : forall n vn, Rws s n vn ->
+    sim s o
+      (if (length mw <? szn P t)%nat then crash else mbind (eq_acc bops (wT bops) (combine n (firstn (szn P t) mw))) (fun acc => ret (acc, E)))
+      (if (length vmw <? szn P t)%nat then crash else mbind (eq_acc tops (wT tops) (combine vn (firstn (szn P t) vmw))) (fun acc => ret (acc, EB)))
+      RresP).
+  { intros n vn Hn. rewrite (Rws_length _ _ _ _ Hmw). destruct (_ <? _)%nat; [apply sim_crash|].
+    eapply sim_bind; [eapply sim_eq_acc; eauto; [eapply Rw_wT; eauto|apply Rpairs_combine; [assumption|apply F2_firstn; assumption]]|].
+    snext as acc vacc Hacc. apply sim_ret; [assumption|]. split; assumption. }
+  destruct pi as [x| | |n|z|ps|name ir fields|ename variant|ename variant ps|lo hi|lo hi].
+  - sbindn sim_env_let as E1 EB1 HE1. apply sim_ret; [assumption|]. split; [eapply Rw_wT; eauto|assumption].
+  - sbindn sim_one_wire as w vw Hw. apply sim_ret; [assumption|]. split; assumption.
+  - sbindn sim_one_wire as w vw Hw. unf. sbindn sim_not as n vn Hn. apply sim_ret; [assumption|]. split; assumption.
+  - apply Heq. eapply Rws_unsigned; eauto.
+  - apply Heq. eapply Rws_signed; eauto.
+  - eapply sim_fields_match; eauto. eapply Rw_wT; eauto.
+  - destruct (assocN name (p_structs P)) as [def|]; [|apply sim_crash].
+    eapply sim_struct_match; eauto. eapply Rw_wT; eauto.
+  - destruct (assocN ename (p_enums P)) as [variants|]; [|apply sim_crash].
+    sbindn sim_slice as ta vta Hta.
+    eapply sim_bind; [eapply sim_eq_acc; eauto; [eapply Rw_wT; eauto|apply Rpairs_combine; [eapply Rws_unsigned; eauto|assumption]]|].
+    snext as im vim Him. apply sim_ret; [assumption|]. split; assumption.
+  - destruct (assocN ename (p_enums P)) as [variants|]; [|apply sim_crash].
+    sbindn sim_slice as ta vta Hta.
+    eapply sim_bind; [eapply sim_eq_acc; eauto; [eapply Rw_wT; eauto|apply Rpairs_combine; [eapply Rws_unsigned; eauto|assumption]]|].
+    snext as im vim Him. destruct (nthN variants variant) as [fts|]; [|apply sim_crash].
+    eapply sim_fields_match; eauto.
+  - apply Hrange; eapply Rws_unsigned; eauto.
+  - apply Hrange; eapply Rws_signed; eauto.
+Qed.
+
+Lemma sim_env_get s o E EB x : RS s o -> RE s E EB ->
+  sim s o (match env_get E x with Some v => ret v | None => crash end)
+          (match env_get EB x with Some v => ret v | None => crash end) (fun s' r v => Rws s' r v).
+Proof.
+  intros HS HE. destruct (env_get EB x) as [vv|] eqn:Eg; [|apply sim_crash].
+  destruct (rel_env_get _ _ _ _ _ _ HE Eg) as (v & -> & Hv). apply sim_ret; assumption.
+Qed.
+
+Lemma sim_lower_stmt_body st s o E EB : RS s o -> RE s E EB ->
+  sim s o (lower_stmt_body bops P eA pA sA st E) (lower_stmt_body tops P eB pB sB st EB) Rres.
+Proof.
+  intros HS HE. destruct st as [si m]. cbn [lower_stmt_body].
+  destruct si as [pat e|name e|name accs e|pat arr body|pat join_ty a b body|e].
+  - (* let *)
+    scall He as w E1 vw EB1 Hw HE1.
+    eapply sim_bind; [eapply Hp; eauto|].
+    snext as pa pb HR. destruct pa as [im E2], pb as [vim EB2]. unfold RresP in HR. cbn [fst snd] in HR. destruct HR as [Him HE2].
+    apply sim_ret; [assumption|]. split; [constructor|assumption].
+  - (* let mut *)
+    scall He as w E1 vw EB1 Hw HE1. sbindn sim_env_let as E2 EB2 HE2.
+    apply sim_ret; [assumption|]. split; [constructor|assumption].
+  - (* assignment *)
+    scall He as value E1 vvalue EB1 Hvalue HE1.
+    sbindn sim_env_get as coll vcoll Hcoll.
+    eapply sim_bind; [eapply sim_assign_forward; eauto; constructor|].
+    match goal with |- forall s1 o1 x y, extS ?sc s1 -> _ => match goal with HSc : SimBase.RS _ _ sc _ |- _ => rename HSc into HScur end end.
+    pose proof (RS_ins _ _ _ _ HScur) as Hic.
+    intros sX oX [accd E2] [vaccd EB2] HeX HSX [Haccd HE2]. cbn [fst snd] in Haccd, HE2.
+    lift_to HeX. clear HScur Hic.
+    sbindn sim_assign_backward as value' vvalue' Hvalue'.
+    eapply sim_bind with (R := fun s' r v => RE s' r v).
+    { apply sim_lift; [assumption|]. intros y Ey. eapply rel_env_assign; eauto. }
+    snext as E3 EB3 HE3. apply sim_ret; [assumption|]. split; [constructor|assumption].
+  - (* for *)
+    eapply sim_bind; [apply sim_pure_eq; assumption|]. snext as pa pb Hpq. subst pb. destruct pa as [eb num].
+    scall He as aw E1 vaw EB1 Haw HE1. rewrite (Rws_length _ _ _ _ Haw).
+    sbindn sim_for_iterations as E2 EB2 HE2. apply sim_ret; [assumption|]. split; [constructor|assumption].
+  - (* join loop *)
+    eapply sim_bind; [apply sim_pure_eq; assumption|]. snext as pa pb Hpq. subst pb. destruct pa as [eba na].
+    eapply sim_bind; [apply sim_pure_eq; assumption|]. snext as pa pb Hpq. subst pb. destruct pa as [ebb nb].
+    scall He as aw E1 vaw EB1 Haw HE1. scall He as bw E2 vbw EB2 Hbw HE2.
+    eapply sim_bind with (R := fun s' r v => Rwss s' (fst r) (fst v) /\ snd r = snd v).
+    { apply sim_lift; [assumption|]. intros y Ey. eapply rel_bitonic_input; eauto. }
+    snext as pa pb HR. destruct pa as [bitonic ne], pb as [vbitonic vne]. cbn [fst snd] in HR. destruct HR as [Hbit <-].
+    sbindn sim_merger as sorted vsorted Hsorted.
+    eapply sim_bind; [eapply sim_join_loop_windows; eauto; apply F2_skipn; assumption|].
+    snext as E3 EB3 HE3. apply sim_ret; [assumption|]. split; [constructor|assumption].
+  - (* expression statement *)
+    eapply He; eauto.
+Qed.
+
+Lemma Rws_concat s l vl : Rwss s l vl -> Rws s (concat l) (concat vl).
+Proof. apply F2_concat. Qed.
+
+Lemma sim_lower_expr_body e s o E EB : RS s o -> RE s E EB ->
+  sim s o (lower_expr_body bops P eA pA bA e E) (lower_expr_body tops P eB pB bB e EB) Rres.
+Proof.
+  intros HS HE. destruct e as [ei m t]. cbn [lower_expr_body].
+  destruct ei as [ | |n lb|z lb|name|es|e1 n|a i|es|e1 i|e1 fld|name fields|ename variant args|scrut arms|e1|e1|bop x y|stmts|f args|join_ty has_assoc a b|c tb fb|to e1|lo hi bits].
+  - apply sim_ret; [assumption|]. split; [constructor; [eapply Rw_wT; eauto|constructor]|assumption].
+  - apply sim_ret; [assumption|]. split; [constructor; [eapply Rw_wF; eauto|constructor]|assumption].
+  - apply sim_ret; [assumption|]. split; [eapply Rws_unsigned; eauto|assumption].
+  - apply sim_ret; [assumption|]. split; [eapply Rws_signed; eauto|assumption].
+  - (* identifier *)
+    destruct (env_get EB name) as [vv|] eqn:Eg; [|apply sim_crash].
+    destruct (rel_env_get _ _ _ _ _ _ HE Eg) as (v & -> & Hv). apply sim_ret; [assumption|]. split; assumption.
+  - (* array literal *)
+    eapply sim_bind; [eapply sim_lower_list; eauto|]. snext as pa pb HR. destruct pa as [ws E1], pb as [vws EB1].
+    cbn [fst snd] in HR. destruct HR as [Hws HE1]. apply sim_ret; [assumption|]. split; [apply Rws_concat; assumption|assumption].
+  - (* array repeat *)
+    scall He as w E1 vw EB1 Hw HE1. sbindn sim_m_extend as w' vw' Hw'.
+    apply sim_ret; [assumption|]. split; [|assumption]. apply Rws_concat. apply F2_repeat. assumption.
+  - (* index *)
+    eapply sim_bind; [apply sim_pure_eq; assumption|]. snext as pa pb Hpq. subst pb. destruct pa as [eb0 num].
+    scall He as arr E1 varr EB1 Harr HE1. scall He as idx E2 vidx EB2 Hidx HE2.
+    sbind2 sim_array_read as r iw vr viw Hr Hiw. apply sim_ret; [assumption|]. split; assumption.
+  - (* tuple literal *)
+    eapply sim_bind; [eapply sim_lower_list; eauto|]. snext as pa pb HR. destruct pa as [ws E1], pb as [vws EB1].
+    cbn [fst snd] in HR. destruct HR as [Hws HE1]. apply sim_ret; [assumption|]. split; [apply Rws_concat; assumption|assumption].
+  - (* tuple access *)
+    eapply sim_bind; [apply sim_pure_eq; assumption|]. snext as pa pb Hpq. subst pb. destruct pa as [wb wi].
+    scall He as w E1 vw EB1 Hw HE1. sbindn sim_slice as r vr Hr. apply sim_ret; [assumption|]. split; assumption.
+  - (* field access *)
+    destruct (e_ty e1) as [| | | |name|]; try apply sim_crash.
+    scall He as w E1 vw EB1 Hw HE1.
+    eapply sim_bind; [apply sim_pure_eq; assumption|]. snext as pa pb Hpq. subst pb. destruct pa as [wb wi].
+    sbindn sim_slice as r vr Hr. apply sim_ret; [assumption|]. split; assumption.
+  - (* struct literal *)
+    destruct (assocN name (p_structs P)) as [def|]; [|apply sim_crash].
+    eapply sim_bind; [eapply sim_lower_struct_fields; eauto|]. snext as pa pb HR. destruct pa as [ws E1], pb as [vws EB1].
+    cbn [fst snd] in HR. destruct HR as [Hws HE1]. apply sim_ret; [assumption|]. split; [apply Rws_concat; assumption|assumption].
+  - (* enum literal *)
+    destruct (assocN ename (p_enums P)) as [variants|]; [|apply sim_crash].
+    eapply sim_bind; [eapply sim_lower_list; eauto|]. snext as pa pb HR. destruct pa as [ws E1], pb as [vws EB1].
+    cbn [fst snd] in HR. destruct HR as [Hws HE1].
+    pose proof (Rws_concat _ _ _ Hws) as Hpl. rewrite (Rws_length _ _ _ _ Hpl).
+    destruct (_ <=? _)%nat; [|apply sim_crash]. apply sim_ret; [assumption|]. split; [|assumption].
+    apply F2_app; [eapply Rws_unsigned; eauto|]. apply F2_app; [assumption|]. apply Rws_repeat. eapply Rw_wF; eauto.
+  - (* match *)
+    scall He as sw E0 vsw EB0 Hsw HE0. unf. sbindn sim_peek as P0 obs0 HP0.
+    eapply sim_bind; [eapply sim_lower_arms; eauto; [eapply Rw_wF; eauto|apply Rws_repeat; eapply Rw_wF; eauto]|].
+    snext as pa pb HR. destruct pa as [[[rw mp] menv] hp], pb as [[[vrw vmp] vmenv] vhp]. cbn [fst snd] in HR.
+    destruct HR as (Hrw & Hmp & Hmenv).
+    sbindn sim_replace as Pu ou HPu. apply sim_ret; [assumption|]. split; assumption.
+  - (* neg *)
+    scall He as x E1 vx EB1 Hx HE1. sbindn sim_negation as neg vneg Hneg.
+    sbindn sim_hd_res as x0 vx0 Hx0. sbindn sim_hd_res as n0 vn0 Hn0. unf. sbindn sim_and as ov vov Hov.
+    sbindn sim_panic_if as u vu Hu. apply sim_ret; [assumption|]. split; assumption.
+  - (* not *)
+    scall He as x E1 vx EB1 Hx HE1.
+    eapply sim_bind; [eapply sim_mapM_M; eauto; intros; unf; eapply sim_not; eauto|].
+    snext as r vr Hr. apply sim_ret; [assumption|]. split; assumption.
+  - (* binary operators *)
+    assert (Hgen : forall o0,
+      sim s o
+        (match (match o0 with OMul => mul_rewrite x y m t | _ => None end) with
+         | Some e' => eA e' E
+         | None => mbind (eA x E) (fun '(xw, E1) => mbind (eA y E1) (fun '(yw, E2) =>
+                   mbind (lower_binop bops o0 t (e_ty x) (e_ty y) xw yw m) (fun r => ret (r, E2))))
+         end)
+        (match (match o0 with OMul => mul_rewrite x y m t | _ => None end) with
+         | Some e' => eB e' EB
+         | None => mbind (eB x EB) (fun '(xw, E1) => mbind (eB y E1) (fun '(yw, E2) =>
+                   mbind (lower_binop tops o0 t (e_ty x) (e_ty y) xw yw m) (fun r => ret (r, E2))))
+         end) Rres).
+    { intro o0. destruct (match o0 with OMul => mul_rewrite x y m t | _ => None end) as [e'|]; [eapply He; eauto|].
+      scall He as xw E1 vxw EB1 Hxw HE1. scall He as yw E2 vyw EB2 Hyw HE2.
+      sbindn sim_lower_binop as r vr Hr. apply sim_ret; [assumption|]. split; assumption. }
+    assert (Hsh : forall left,
+      sim s o
+        (mbind (eA x E) (fun '(xw, E1) => mbind (eA y E1) (fun '(yw, E2) =>
+         mbind (lower_shift bops left (is_signed (e_ty x)) xw yw m) (fun r => ret (r, E2)))))
+        (mbind (eB x EB) (fun '(xw, E1) => mbind (eB y E1) (fun '(yw, E2) =>
+         mbind (lower_shift tops left (is_signed (e_ty x)) xw yw m) (fun r => ret (r, E2))))) Rres).
+    { intro left. scall He as xw E1 vxw EB1 Hxw HE1. scall He as yw E2 vyw EB2 Hyw HE2.
+      sbindn sim_lower_shift as r vr Hr. apply sim_ret; [assumption|]. split; assumption. }
+    destruct bop;
+      try (match goal with |- context [lower_binop bops ?oo] => exact (Hgen oo) end);
+      try (match goal with |- context [lower_shift bops ?l] => exact (Hsh l) end).
+    + (* && *)
+      scall He as xw E1 vxw EB1 Hxw HE1. sbindn sim_one_wire as x0 vx0 Hx0. unf. sbindn sim_peek as Pb ob HPb.
+      scall He as yw E2 vyw EB2 Hyw HE2. sbindn sim_one_wire as y0 vy0 Hy0. sbindn sim_peek as Pa oa HPa.
+      sbindn sim_mux_panic as Pm om HPm. sbindn sim_replace as Pu ou HPu. sbindn sim_and as r vr Hr.
+      apply sim_ret; [assumption|]. split; [constructor; [assumption|constructor]|assumption].
+    + (* || *)
+      scall He as xw E1 vxw EB1 Hxw HE1. sbindn sim_one_wire as x0 vx0 Hx0. unf. sbindn sim_peek as Pb ob HPb.
+      scall He as yw E2 vyw EB2 Hyw HE2. sbindn sim_one_wire as y0 vy0 Hy0. sbindn sim_peek as Pa oa HPa.
+      sbindn sim_mux_panic as Pm om HPm. sbindn sim_replace as Pu ou HPu. sbindn sim_or as r vr Hr.
+      apply sim_ret; [assumption|]. split; [constructor; [assumption|constructor]|assumption].
+  - (* block *)
+    eapply Hb; eauto.
+  - (* call *)
+    destruct (find_fn P f) as [fd|]; [|apply sim_crash].
+    eapply sim_bind; [eapply sim_lower_args; eauto|]. snext as pa pb HR. destruct pa as [bindings E1], pb as [vbindings EB1].
+    cbn [fst snd] in HR. destruct HR as [Hbind HE1].
+    pose proof (F2_rev _ _ _ HE1) as Hrev.
+    destruct Hrev as [|glob vglob crev vcrev Hglob Hcrev]; [apply sim_crash|].
+    eapply sim_bind with (R := fun s' r v => RE s' r v).
+    { apply sim_lift; [assumption|]. intros yb Eb. eapply rel_bind_all; eauto.
+      apply rel_env_push. constructor; [assumption|constructor]. }
+    match goal with |- forall s1 o1 x y, extS ?sc s1 -> _ => match goal with HSc : SimBase.RS _ _ sc _ |- _ => rename HSc into HScur end end.
+    pose proof (RS_ins _ _ _ _ HScur) as Hic.
+    intros sX oX Ecallee vEcallee HeX HSX HEc. cbn beta in HEc.
+    assert (HcrevX : Forall2 (Rscope inp sX) crev vcrev).
+    { eapply F2_impl'; [|exact Hcrev]. intros a b Hab. eapply Rscope_mono; eauto. }
+    clear Hcrev. lift_to HeX. clear HScur Hic.
+    pose proof (RS_ins _ _ _ _ HSX) as HiX.
+    eapply sim_bind; [eapply Hb; eauto|]. intros sY oY [body E2] [vbody EB2] HeY HSY [Hbody HE2]. cbn [fst snd] in Hbody, HE2.
+    assert (HcrevY : Forall2 (Rscope inp sY) crev vcrev).
+    { eapply F2_impl'; [|exact HcrevX]. intros a b Hab. eapply Rscope_mono; eauto. }
+    clear HcrevX. lift_to HeY. clear HSX HiX.
+    pose proof (RS_ins _ _ _ _ HSY) as HiY.
+    eapply sim_bind; [eapply sim_env_pop; eauto|]. intros sZ oZ E3 EB3 HeZ HSZ HE3. cbn beta in HE3.
+    assert (HcrevZ : Forall2 (Rscope inp sZ) crev vcrev).
+    { eapply F2_impl'; [|exact HcrevY]. intros a b Hab. eapply Rscope_mono; eauto. }
+    lift_to HeZ.
+    apply sim_ret; [assumption|]. split; [assumption|]. cbn [snd]. apply F2_app; [apply F2_rev; assumption|assumption].
+  - (* join *)
+    eapply sim_bind; [apply sim_pure_eq; assumption|]. snext as pa pb Hpq. subst pb. destruct pa as [eba na].
+    eapply sim_bind; [apply sim_pure_eq; assumption|]. snext as pa pb Hpq. subst pb. destruct pa as [ebb nb].
+    scall He as aw E1 vaw EB1 Haw HE1. scall He as bw E2 vbw EB2 Hbw HE2.
+    eapply sim_bind with (R := fun s' r v => Rwss s' (fst r) (fst v) /\ snd r = snd v).
+    { apply sim_lift; [assumption|]. intros yb Ey. eapply rel_bitonic_input; eauto. }
+    snext as pa pb HR. destruct pa as [bitonic ne], pb as [vbitonic vne]. cbn [fst snd] in HR. destruct HR as [Hbit <-].
+    sbindn sim_merger as sorted vsorted Hsorted.
+    eapply sim_bind; [eapply sim_join_func_windows; eauto; apply F2_skipn; assumption|].
+    snext as joined vjoined Hjoined. sbindn sim_sorter as joined2 vjoined2 Hjoined2.
+    apply sim_ret; [assumption|]. split; [apply Rws_concat; assumption|assumption].
+  - (* if *)
+    scall He as cw E0 vcw EB0 Hcw HE0. unf. sbindn sim_peek as P0 obs0 HP0. sbindn sim_one_wire as c0 vc0 Hc0.
+    scall He as tw ET vtw EBT Htw HET. sbindn sim_replace as PT oT HPT.
+    scall He as fw EF vfw EBF Hfw HEF. sbindn sim_replace as PF oF HPF.
+    sbindn sim_mux_envs as E' EB' HE'. sbindn sim_mux_panic as Pm om HPm. sbindn sim_replace as Pu ou HPu.
+    sbindn sim_mux_bits as r vr Hr. apply sim_ret; [assumption|]. split; assumption.
+  - (* cast *)
+    scall He as w E1 vw EB1 Hw HE1. rewrite (Rws_length _ _ _ _ Hw).
+    destruct (_ =? _)%nat; [apply sim_ret; [assumption|split; assumption]|].
+    destruct (_ <? _)%nat.
+    + apply sim_ret; [assumption|]. split; [|assumption]. unfold Extend.cast_truncate.
+      rewrite (Rws_length _ _ _ _ Hw). apply F2_skipn. assumption.
+    + sbindn sim_m_extend as w' vw' Hw'. apply sim_ret; [assumption|]. split; assumption.
+  - (* range *)
+    destruct (hi <? lo); [apply sim_crash|]. apply sim_ret; [assumption|]. split; [|assumption].
+    apply Rws_concat. apply F2_map_same. intro k. eapply Rws_unsigned; eauto.
+Qed.
+
 End Rec.
